@@ -205,7 +205,7 @@ func (c *LRUCache[K, V]) Remove(key K) (value V, removed bool) {
 func (c *LRUCache[K, V]) RemoveYoungest() (key K, value V, removed bool) {
 	if item := c.evictList.first(); item != &c.evictList.root {
 		delete(c.items, item.key)
-		return item.key, item.value, c.evictList.removeLast()
+		return item.key, item.value, c.evictList.remove(item)
 	}
 	return
 }
